@@ -162,6 +162,7 @@ func (c *channel) enqueue(req request, responseChan chan<- response, streaming b
 		c.routeResponse(req.msg.Metadata.MessageID, response{nid: c.node.ID(), err: fmt.Errorf("channel closed")})
 		return
 	case <-req.ctx.Done():
+		vEmit("CtxReply", c.node.ID(), req.msg.Metadata.MessageID)
 		// the caller's context ended before the sender could take the request
 		c.routeResponse(req.msg.Metadata.MessageID, response{nid: c.node.ID(), err: req.ctx.Err()})
 		return
